@@ -281,6 +281,42 @@ func runC20(p *Prog, r *Report, tier string) {
 				"on every edge into the slice bound the count is len(flowRecords) or proven 0 <= count <= len(flowRecords) by the branch conditions", "the count used in the slice bound is not clamped to [0, len(flowRecords)]: "+why+" (a large or negative count panics or returns the wrong window)", true)
 		}
 	}
+	// both formats answer with the window: the JSON body is built from it and the text loop ranges over it
+	if qslice != nil {
+		nJ, okJ := 0, true
+		eachInstr(q, func(in ssa.Instruction) {
+			st, ok := in.(*ssa.Store)
+			if !ok {
+				return
+			}
+			tn, fn, _, ok := fieldOf(st.Addr)
+			if !ok || tn != "cmd/collector.jsonResponse" || fn != "FlowRecords" {
+				return
+			}
+			nJ++
+			if st.Val != ssa.Value(qslice) {
+				okJ = false
+			}
+		})
+		r.Check(nJ >= 1 && okJ, "R-VALUE.query", "cmd/collector.flowRecordHandler: JSON response carries the window", p.instrPos(qslice), "jsonResponse.FlowRecords = flowRecords[len-count:]",
+			"the JSON response is not built from the requested window (whole store, or another slice): the two formats answer differently", true)
+		okT := false
+		eachInstr(q, func(in ssa.Instruction) {
+			c, ok := in.(*ssa.Call)
+			if !ok || !c.Call.IsInvoke() || c.Call.Method.Name() != "Write" {
+				return
+			}
+			if cv, ok := c.Call.Args[0].(*ssa.Convert); ok {
+				if base, ok := rangeElemIndex(cv.X); ok && base == ssa.Value(qslice) {
+					okT = true
+				} else if base, ok := rangeElem(cv.X); ok && base == ssa.Value(qslice) {
+					okT = true
+				}
+			}
+		})
+		r.Check(okT, "R-VALUE.query", "cmd/collector.flowRecordHandler: text response ranges over the window", p.instrPos(qslice), "for idx := range records { w.Write([]byte(records[idx])) }",
+			"the text response does not write every entry of the requested window in order", true)
+	}
 	// a parsed count is used only where parsing succeeded and the value is not negative (invalid queries are refused)
 	nParsed := 0
 	eachInstr(q, func(in ssa.Instruction) {
